@@ -1,6 +1,8 @@
 package main
 
 import (
+	"strings"
+	"runtime"
 	"fmt"
 	"io"
 	"math"
@@ -161,6 +163,13 @@ func genC04(rng *Rng, workdir string) *engSession {
 	s.ops = append(s.ops, eOp{"op": "save-image"})
 	var obs []c04Obs
 	origDir := s.dir
+	// "every interleaving of its workers" includes machines with any number of processors: the six updates
+	// of some images run with the Go scheduler limited to 1, 2, 3, 5 or 7 processors
+	if procs := []int{0, 0, 0, 1, 2, 3, 5, 7, 3, 5}[rng.Intn(10)]; procs > 0 {
+		old := runtime.GOMAXPROCS(procs)
+		defer runtime.GOMAXPROCS(old)
+		s.stat[fmt.Sprintf("c04_gomaxprocs_%d", procs)]++
+	}
 	for _, th := range []byte{0, 1, 2, 4, 8, 16} {
 		cp := fmt.Sprintf("%s_th%d", origDir, th)
 		os.RemoveAll(cp)
@@ -290,12 +299,17 @@ func runC04(o *Out, rng *Rng, tier string, replay string) {
 	} else if tier == "search" {
 		n = 120
 	}
-	o.sum.Rule = "case = a database image (12-320 travellers whose SHA1 keys are searched so that one shard is crowded and several are empty; a few days of check-ins, promises, promised trips that are flown and kept so that cleared-balance deltas are reported from several shards, closes) on which the same daily update is run, from identical copies, at Threads = 0,1,2,4,8,16; the model replays the history and all six updates (save/restore); table digest, carried administrator state, share and integer totals must be equal across settings and equal to the model's; non-trivial = the update credited somebody and counted flights of more than one traveller; distinct by script hash"
+	o.sum.Rule = "case = a database image (12-320 travellers whose SHA1 keys are searched so that one shard is crowded and several are empty; a few days of check-ins, promises, promised trips that are flown and kept so that cleared-balance deltas are reported from several shards, closes) on which the same daily update is run, from identical copies, at Threads = 0,1,2,4,8,16 (for a third of the images with the Go scheduler limited to 1, 2, 3, 5 or 7 processors); the model replays the history and all six updates (save/restore); table digest, carried administrator state, share and integer totals must be equal across settings and equal to the model's; non-trivial = the update credited somebody and counted flights of more than one traveller; distinct by script hash"
 	wd := filepath.Join(o.dir, "dbs")
 	for c := 0; c < n; c++ {
 		s := genC04(rng.Fork(), wd)
 		keepFails(o, s, "C04")
 		engNote(o, s)
+		for k, v := range s.stat {
+			if strings.HasPrefix(k, "c04_gomaxprocs_") {
+				o.CountN(k, v)
+			}
+		}
 		o.AddCase(List(s.coq), s.stat["c04_nontrivial"] > 0, s.ops)
 		s.close()
 	}
